@@ -78,6 +78,10 @@ func (g *gen) Add(name string, typs []types.Type) (string, error) {
 // err, success and out0, out1, etc. would otherwise shadow the given error or clash with the results of the given function.
 func renameParams(sig *types.Signature) *types.Signature {
 	params := sig.Params()
+	taken := make(map[string]struct{}, params.Len())
+	for i := 0; i < params.Len(); i++ {
+		taken[params.At(i).Name()] = struct{}{}
+	}
 	vars := make([]*types.Var, params.Len())
 	renamed := false
 	for i := range vars {
@@ -85,7 +89,12 @@ func renameParams(sig *types.Signature) *types.Signature {
 		name := vars[i].Name()
 		_, errOut := strconv.Atoi(strings.TrimPrefix(name, "out"))
 		if name == "err" || name == "success" || (strings.HasPrefix(name, "out") && errOut == nil) {
-			vars[i] = types.NewVar(vars[i].Pos(), vars[i].Pkg(), "in"+strconv.Itoa(i), vars[i].Type())
+			newName := "in" + strconv.Itoa(i)
+			for _, ok := taken[newName]; ok; _, ok = taken[newName] {
+				newName += "_"
+			}
+			taken[newName] = struct{}{}
+			vars[i] = types.NewVar(vars[i].Pos(), vars[i].Pkg(), newName, vars[i].Type())
 			renamed = true
 		}
 	}
